@@ -1,6 +1,6 @@
 CONSTANTS
   Kind = "set"
-  Rows = {0, 100}
+  Rows = {99, 100}
   Cols = {0, 3}
   Ops = {"Row","RoaringSet","RoaringClear","SetBit","ClearBit","BulkClear","Snapshot","Reopen"}
   Scope = "small"
